@@ -12,9 +12,16 @@
     - CReadOnly: the read-only-memory probe: [programs] executions of the engine with every script it is handed
       stored in pages the process may only read, [faults] of which wrote into such a script (undone or not): the
       confinement hypothesis "a validation only READS the scripts it is handed" (model/SharedScript.v: several
-      transactions may name one script object), observed directly and without any schedule ([read_only_ok]). *)
+      transactions may name one script object), observed directly and without any schedule ([read_only_ok]);
+    - CHistoryR: a history in which some calls FAILED (UnmarshalJSON of a document with an unknown fee type, of a
+      cut-off document, UpdateMinerFees with an empty argument): [rejected] are the (location, value) pairs only such
+      calls carried. Every read is initial or stored, as for CHistory, and no read returned a rejected value
+      ([rejected_unseen], model/FailedWrites.v: a failed write stores nothing);
+    - CFailPaths: the lock table and, next to it, the flags "a call may report failure after exactly these actions",
+      both re-extracted by the harness from the checkout it was built against: no such path contains a write, calls
+      inlined ([failed_calls_store_nothing_raw], the checker proofs/FailedWritesProofs.v is about). *)
 From Coq Require Import String List NArith Bool.
-From GoBT Require Import model.Locks spec.RaceSpec model.SharedScript corr.Corr.
+From GoBT Require Import model.Locks spec.RaceSpec model.SharedScript model.FailedWrites corr.Corr.
 Import ListNotations.
 Local Open Scope N_scope.
 
@@ -23,7 +30,9 @@ Inductive case :=
 | CHistory (init stored reads : list (string * N))
 | CGlobals (gl : list rawglobal) (engine_fields : list string) (fresh : list (string * bool)) (race_seen : bool)
 | CEngine (concurrent sequential : list bool)
-| CReadOnly (programs faults : N).
+| CReadOnly (programs faults : N)
+| CHistoryR (init stored rejected reads : list (string * N))
+| CFailPaths (tbl : rawtable) (fails : rawfails).
 
 Fixpoint bools_eqb (a b : list bool) : bool :=
   match a, b with
@@ -39,6 +48,9 @@ Definition check (c : case) : bool :=
   | CGlobals gl ef fr race => shares_nothing gl ef fr && negb race
   | CEngine conc seq => bools_eqb conc seq
   | CReadOnly programs faults => read_only_ok programs faults
+  | CHistoryR init stored rejected reads =>
+      observed_ok String.eqb N.eqb init stored reads && rejected_unseen String.eqb N.eqb rejected reads
+  | CFailPaths tbl fails => failed_calls_store_nothing_raw tbl fails
   end.
 
 Definition mismatches := mismatches_with check.
